@@ -415,6 +415,8 @@ class StmtMixin:
             seqsort = z3.SeqSort(it.term.sort().domain())
             order = self.ufun('iter_order_' + ''.join(c for c in str(seqsort) if c.isalnum()), it.term.sort(), z3.IntSort(), seqsort)(it.term, nonce)
             self.iter_info[order.get_id()] = it.term
+            self.iter_box = getattr(self, 'iter_box', {})
+            self.iter_box[order.get_id()] = it
             self.assumptions.add('iteration over a set yields an arbitrary order (fresh permutation per iteration site)')
             return IterView('seq', [order])
         if isinstance(it, VBox) and it.kind == 'dict':
@@ -460,6 +462,11 @@ class StmtMixin:
         names, lvals = self.loop_targets(s)
         tnames = {n.id for n in ast.walk(s.target) if isinstance(n, ast.Name)} if isinstance(s, (ast.For, ast.AsyncFor)) else set()
 
+        if (view is not None and view.kind == 'seq' and view.seqs[0].get_id() in getattr(self, 'iter_box', {})
+                and any('__seen' in t_ for t_ in lc.invariant)):
+            # a for loop over a SET whose invariant speaks of the elements visited so far: the same ghost protocol as for the
+            # keys of a dict (every element exactly once, arbitrary order; the set is not resized meanwhile)
+            view = IterView('dict', [], parts=[(self.iter_box[view.seqs[0].get_id()], 'keys')])
         dictview = view is not None and view.kind == 'dict'
 
         def state_env(i):
